@@ -61,6 +61,18 @@ def json_equal(a, b):
     return a == b
 
 
+class CompactEncoder(json.JSONEncoder):
+    """The usual recipe for keeping the output on one line per record: encode() is overridden (iterencode() is not)."""
+
+    def encode(self, o):
+        return super(CompactEncoder, self).encode(o).replace("\n", " ").replace("[ ", "[").replace(" ]", "]") + " "
+
+
+class TaggingEncoder(json.JSONEncoder):
+    def default(self, o):  # never needed for JSON-representable values; its presence must not matter
+        return {"<unserialisable>": repr(o)}
+
+
 class BoundedSink(object):
     """A write-only text file object that refuses to grow beyond a bound (a runaway writer must not fill the disk)."""
 
@@ -140,6 +152,9 @@ def _once(case, acc, nodes):
     for key, default in (("indent", None), ("sort_keys", False), ("ensure_ascii", True), ("separators", None)):
         if key in (case.get("explicit_defaults") or ()):
             kwargs.setdefault(key, default)
+    if case.get("encoder"):
+        # json.dumps options include cls=: a JSONEncoder subclass that overrides encode() (compact short lists) or default()
+        kwargs["cls"] = {"encode": CompactEncoder, "default": TaggingEncoder}[case["encoder"]]
     dx = case.get("dictexporter")
     attriter = childiter = None
     dx_maxlevel = None
@@ -167,8 +182,24 @@ def _once(case, acc, nodes):
         raise Violation("export-text", "export() = %r, json.dumps(reference) = %r" % (text, expected))
     buf = io.StringIO()
     exporter.write(start, buf)
-    if buf.getvalue() != expected:
-        raise Violation("write-text", "write() emitted %r, expected %r" % (buf.getvalue(), expected))
+    if case.get("encoder") == "encode":
+        # with an encoder class that overrides encode() only, json.dump and json.dumps themselves differ: each of the two
+        # calls is compared with its own standard-library counterpart
+        ref_buf = io.StringIO()
+        json.dump(ref, ref_buf, **kwargs)
+        expected_written = ref_buf.getvalue()
+    else:
+        expected_written = expected
+    if buf.getvalue() != expected_written:
+        raise Violation("write-text", "write() emitted %r, expected %r" % (buf.getvalue(), expected_written))
+    # a document that does not start at the beginning of its file: written after a header line, read from where the caller left the handle
+    framed = io.StringIO()
+    framed.write("# exported tree\n")
+    mark = framed.tell()
+    exporter.write(start, framed)
+    if framed.getvalue() != "# exported tree\n" + expected_written:
+        raise Violation("write-text", "write() into a handle that already holds a header line produced %r" % (framed.getvalue(),))
+    framed.seek(mark)
     if c10.tree_state(nodes) != before:
         raise Violation("export-modifies-tree", "JSON export modified the tree")
     # import
@@ -178,8 +209,12 @@ def _once(case, acc, nodes):
         ikw["object_pairs_hook"] = collections.OrderedDict
     dictimporter = DictImporter(nodecls=nodecls) if (case["cls"] != "AnyNode" or case.get("explicit_importer")) else None
     importer = JsonImporter(dictimporter=dictimporter, **ikw)
-    for how in ("import_", "read", "import_", "import_"):
-        root = importer.import_(text) if how == "import_" else importer.read(io.StringIO(text))
+    for how in ("import_", "read", "import_", "read-after-header", "import_"):
+        if how == "read-after-header":
+            framed.seek(mark)
+            root = importer.read(framed)
+        else:
+            root = importer.import_(text) if how == "import_" else importer.read(io.StringIO(text))
         compare_tree(root, ref, nodecls, case["sort_keys"])
         if root.parent is not None:
             raise Violation("import-root", "imported root has a parent")
@@ -231,6 +266,7 @@ def random_cases(draw):
         "maxlevel": draw(st.one_of(st.none(), st.none(), st.integers(0, 5))),
         "pairs_hook": draw(st.booleans()),
         "explicit_importer": draw(st.booleans()),
+        "encoder": draw(st.sampled_from([None, None, None, "encode", "default"])),
         "explicit_defaults": draw(st.lists(st.sampled_from(["indent", "sort_keys", "ensure_ascii", "separators"]), unique=True, max_size=4)),
         "mutations": draw(strategies.tree_mutations(max_ops=2, rename_values=st.sampled_from(["renamed", "é"]))),
     }
